@@ -18,8 +18,9 @@ ASSUMPTIONS = [
     "radius/threshold within rel. 1e-9 of each other accept both decisions",
     "which child keeps the old arm when it lies on a shared face is not prescribed: exactly one child must hold it",
 ]
-FLOOR = {"zoom_pulls_checked": {"quick": 40000, "thorough": 800000}, "refinements_seen": {"quick": 1500, "thorough": 30000},
-         "leaves_checked_for_coverage": {"quick": 300000, "thorough": 6000000}}
+FLOOR = {"zoom_pulls_checked": {"quick": 40000, "thorough": 320000},
+         "refinements_seen": {"quick": 1500, "thorough": 12000},
+         "leaves_checked_for_coverage": {"quick": 300000, "thorough": 2400000}}
 WALL = {"quick": 1200, "thorough": 4 * 3600}
 
 
